@@ -638,7 +638,7 @@ BLOCKS = ['CC(=O)O', 'OC(=O)c1ccccc1', 'CN', 'CCNCC', 'Nc1ccccc1', 'C1CCNCC1', '
           'OC(=O)CCC(=O)O', 'NCCN', 'C=CCBr', 'CCCBr', 'BrCC(=O)OC', 'OC(=O)C(F)(F)F', 'CC(N)C(=O)O',
           'FC(F)(F)c1ccc(Br)cc1', 'Nc1ccc(Br)cc1', 'OB(O)C1CC1', 'CC(C)(C)OC(=O)NCCN', 'O=C1CCCCC1', 'CNC',
           'c1ccc(Nc2ccccc2)cc1', 'CNc1ccccc1', 'C1CNCO1', 'CNOC', 'CNNC(C)=O', 'BrC=C', 'CC=CBr', 'CC(Cl)=O', 'OB(O)C=C',
-          'OB(O)C#CC', 'CCl', 'CCCl', '[Na+].[Cl-]', 'O']
+          'OB(O)C#CC', 'OB(O)C=CC', 'CCl', 'CCCl', '[Na+].[Cl-]', 'O']
 
 SYNTH_REACTORS = [
     # (name, patterns, products, kwargs)
